@@ -284,7 +284,7 @@ def run(ctx):
             if ctx.mine(k):
                 check(acc, label, node, x)
     acc.exhaustive.append("every boundary value of the generators through every conversion accepting its type")
-    n = ctx.scale(48000, 1600000)
+    n = ctx.scale(120000, 2400000)
     for j in range(n):
         if ctx.expired():
             break
